@@ -11,6 +11,7 @@ import (
 	"encoding/binary"
 	"encoding/hex"
 	"encoding/json"
+	"errors"
 	"fmt"
 	"os"
 	"sort"
@@ -49,6 +50,37 @@ type c20World struct {
 	nsnap    int
 	timeout  time.Duration // for a hostile request
 	baselineErrs []string  // well-formed reads of the fresh world answered 5xx
+	kind       string // "main" | "vox" | "leg"
+	scanned    int64  // position in the node's stderr up to which panic reports have been looked for
+	goroutines int    // goroutines of the node after the last settle
+	lastCommitted string // the version made by the last committedBranch()
+	buildScanned  bool   // the stderr of the world's construction has been looked at
+	buildNotIdle  string // the set-up requests left work behind that did not come to rest
+}
+
+// buildIdle waits for the background work of the set-up requests.  Work that does not come to rest
+// (30 s) is remembered and reported by the driver as a departure of the well-formed set-up requests.
+func (w *c20World) buildIdle() {
+	if w.buildNotIdle != "" {
+		return
+	}
+	if err := c20Idle(w.n); err != nil {
+		if errors.Is(err, node.ErrDead) {
+			must(err, "idle during world set-up")
+		}
+		w.buildNotIdle = err.Error()
+	}
+}
+
+// committedBranch makes a new committed child of v1 on a branch of its own.
+func (w *c20World) committedBranch() string {
+	w.nbranch++
+	w.ninst++
+	u := w.branch(fmt.Sprintf("c%d", w.ninst))
+	w.mustPost("/api/node/"+u+"/kv/key/cb", []byte(fmt.Sprintf(`"value at c%d"`, w.ninst)), "kv on a branch")
+	w.mustPost("/api/node/"+u+"/commit", []byte(`{"note":"committed branch"}`), "commit a branch")
+	w.lastCommitted = u
+	return u
 }
 
 type c20Entry struct {
@@ -125,12 +157,23 @@ func c20Elem(x, y, z int, kind string, tags []string, rel string, to [3]int) map
 
 func c20OffStr(o [3]int) string { return fmt.Sprintf("%d_%d_%d", o[0], o[1], o[2]) }
 
+// newC20WorldKind builds a world of the given kind on a fresh node.
+func newC20WorldKind(c *Ctx, cfg node.Config, kind string) *c20World {
+	switch kind {
+	case "vox":
+		return newC20VoxWorld(c, cfg)
+	case "leg":
+		return newC20LegWorld(c, cfg)
+	}
+	return newC20World(c, cfg)
+}
+
 // newC20World builds the world on a fresh node.
 func newC20World(c *Ctx, cfg node.Config) *c20World {
 	t0 := time.Now()
 	defer func() { atomic.AddInt64(&c20WorldNanos, int64(time.Since(t0))); atomic.AddInt64(&c20WorldCount, 1) }()
 	cfg.AllowSplit = true
-	w := &c20World{n: c.StartNode(cfg), timeout: 30 * time.Second}
+	w := &c20World{n: c.StartNode(cfg), timeout: 30 * time.Second, kind: "main"}
 	r := w.mustPost("/api/repos", []byte(`{"alias":"hostile","description":"C20"}`), "new repo")
 	var out struct{ Root string }
 	json.Unmarshal(r.Bytes(), &out)
@@ -158,7 +201,7 @@ func newC20World(c *Ctx, cfg node.Config) *c20World {
 	})
 	w.mustPost(base+"/lm/raw/0_1_2/32_32_32/"+c20OffStr(c20CtlOff), ctlVol, "lm control volume")
 	w.mustPost(base+"/lm2/raw/0_1_2/32_32_32/0_0_0", c20Volume(32, 32, 32, func(x, y, z int) uint64 { return uint64(7 + y/16) }), "lm2 volume")
-	must(w.n.Idle(), "idle")
+	w.buildIdle()
 	// gray
 	w.mustPost(base+"/gray/raw/0_1_2/64_64_64/0_0_0", c20Gray(64, 64, 64, 1), "gray volume")
 	w.mustPost(base+"/gray/raw/0_1_2/32_32_32/"+c20OffStr(c20CtlOff), c20Gray(32, 32, 32, 2), "gray control volume")
@@ -183,7 +226,7 @@ func newC20World(c *Ctx, cfg node.Config) *c20World {
 	}
 	// roi
 	w.mustPost(base+"/roi/roi", []byte(`[[0,0,0,1],[0,1,0,0],[1,1,1,2]]`), "roi")
-	must(w.n.Idle(), "idle")
+	w.buildIdle()
 	w.mustPost(base+"/commit", []byte(`{"note":"root"}`), "commit root")
 
 	// v1
@@ -199,7 +242,7 @@ func newC20World(c *Ctx, cfg node.Config) *c20World {
 	w.mustPost(b1+"/ann/elements", eb, "ann v1")
 	w.mustPost(b1+"/nj/key/9002?u=setup", []byte(`{"bodyid":9002,"status":"Anchor"}`), "nj v1")
 	w.mustPost(b1+"/roi/roi", []byte(`[[0,0,0,1],[2,2,0,3]]`), "roi v1")
-	must(w.n.Idle(), "idle")
+	w.buildIdle()
 	w.mustPost(b1+"/commit", []byte(`{"note":"v1"}`), "commit v1")
 
 	// sibling b
@@ -210,7 +253,7 @@ func newC20World(c *Ctx, cfg node.Config) *c20World {
 	w.mustPost(bb+"/nj/key/9003?u=setup", []byte(`{"bodyid":9003,"type":"MBON"}`), "nj b")
 	eb, _ = json.Marshal([]map[string]interface{}{c20Elem(12, 50, 12, "Note", []string{"t2"}, "", [3]int{})})
 	w.mustPost(bb+"/ann/elements", eb, "ann b")
-	must(w.n.Idle(), "idle")
+	w.buildIdle()
 	w.retarget()
 	return w
 }
@@ -231,6 +274,16 @@ func (w *c20World) retarget() {
 	w.a = w.branch(fmt.Sprintf("t%d", w.nbranch))
 	w.buildReads()
 	w.cur = w.take()
+	// the number of goroutines at rest, against which the growth after a request is measured
+	var st struct {
+		Goroutines int  `json:"goroutines"`
+		Settled    bool `json:"settled"`
+	}
+	if err := w.n.Call("c20.settle", map[string]int{"wait_ms": 3000}, &st); err == nil && st.Settled {
+		w.goroutines = st.Goroutines
+	} else {
+		w.goroutines = 0
+	}
 }
 
 // c20SortRLEs sorts the spans of a binary sparse volume (their order depends on goroutine scheduling).
@@ -319,6 +372,14 @@ func c20InstanceNames(b []byte) []byte {
 //	data/<i>@<uuid>/C/...        control part (never named by a hostile request)
 //	data/<i>@<uuid>/T/...        target part (named by requests to i at the target version)
 func (w *c20World) buildReads() {
+	switch w.kind {
+	case "vox":
+		w.buildReadsVox()
+		return
+	case "leg":
+		w.buildReadsLeg()
+		return
+	}
 	var rs []snap.Read
 	add := func(key, url string, norm func([]byte) []byte) {
 		rs = append(rs, snap.Read{Key: key, Method: "GET", URL: url, Norm: norm})
@@ -571,8 +632,11 @@ func c20KeyScope(key string) (inst, part string) {
 // scopeInstances maps a scope of the specification to instance names of the world.
 func scopeInstances(scope string) []string {
 	switch scope {
-	case "lm", "lmorig", "lmi", "ann", "kv", "nj", "roi", "gray":
+	case "lm", "lmorig", "lmi", "ann", "kv", "nj", "roi", "gray",
+		"lms", "g16", "rgba", "lb", "lv", "la", "lsz", "tsv", "tiles":
 		return []string{scope}
+	case "lann":
+		return []string{"ann"}
 	}
 	return nil
 }
